@@ -877,6 +877,14 @@ class Executor:
             return self.inline_call(fq, args, kwargs, p, node)
         c = CONTRACTS.get(fq)
         if c is None:
+            # a callee the sidecar contracts do not know (e.g. a helper introduced by a refactoring):
+            # loop-free ones are executed in line (exact, not modular) and listed in evidence;
+            # anything else is a checker error
+            if not self.repo.loops_of(fq) and self.depth < 3:
+                note = ('uncontracted-inlined', fq)
+                if note not in self.dropped:
+                    self.dropped.append(note)
+                return self.inline_call(fq, args, kwargs, p, node)
             raise VError(f'missing contract for callee {fq} (called at {self.where(node)})')
         bound = self.bind_params(fi, args, kwargs, p, node)
         return self.apply_contract(c, fi, bound, p, node)
